@@ -73,6 +73,15 @@ func reduceBytes(s []byte, fails func([]byte) bool) []byte {
 				break
 			}
 		}
+		for i := 0; i < len(cur) && !changed; i++ {
+			if cur[i] != 'a' {
+				cand := append([]byte{}, cur...)
+				cand[i] = 'a'
+				if fails(cand) {
+					cur, changed = cand, true
+				}
+			}
+		}
 	}
 	return cur
 }
